@@ -232,7 +232,20 @@ def gen_layer2(rng, tier):
         for fn in list(tree):
             if rng.random() < 0.7:
                 tree[fn] = ('\u00e9\u6f22 ' * 3 + 'content of %s ' % fn) * rng.choice([1, 1, 2, 3])
+    if rng.random() < 0.35:
+        # byte-level oddities a verbatim copy must preserve: byte order mark, CR LF, no final line break, blanks at both ends
+        for fn in list(tree):
+            r_ = rng.random()
+            if r_ < 0.3:
+                tree[fn] = '\ufeff' + tree[fn] + '\n'
+            elif r_ < 0.5:
+                tree[fn] = tree[fn].replace(' ', '\r\n') + '\r\n'
+            elif r_ < 0.65:
+                tree[fn] = '\n\n  ' + tree[fn] + ' \t\n\n'
+            elif r_ < 0.75:
+                tree[fn] = tree[fn] + '\x0c\x00\u2028 end'
     return {'layer': 2, 'name': name, 'tree': tree, 'kind': kind, 'cap': cap, 'genTexts': rng.random() < 0.5, 'req_texts': rng.random() < 0.5,
+            'late_flavour': rng.random() < 0.35,
             'lowcase': rng.random() < 0.5, 'listing_seed': rng.randrange(1 << 30),
             'rate': {'p': 0.05, 'seed': rng.randrange(1 << 30), 'sites': ['os.stat', 'open', 'file.read', 'os.listdir']} if rng.random() < 0.3 else None}
 
@@ -251,16 +264,18 @@ def run_layer2(scn):
         with core.unhooked():
             os.makedirs(d)
             for fn, content in sorted(scn['tree'].items()):
-                with open(os.path.join(d, fn), 'w', encoding='utf-8') as f:
+                with open(os.path.join(d, fn), 'w', encoding='utf-8', newline='') as f:
                     f.write(content)
         w = core.World(root=root, rate=scn.get('rate'), listing_seed=scn.get('listing_seed'))
         reader = FileReader(d)
         if scn['kind'] == 'py':
-            b = PyFileBorrower(reader, genTexts=scn['genTexts'])
+            b = PyFileBorrower(reader) if scn.get('late_flavour') else PyFileBorrower(reader, genTexts=scn['genTexts'])
             exts = ['.py']
         else:
-            b = AnyFileBorrower(reader, genTexts=scn['genTexts']).setOptions(exts=['.json'])
+            b = (AnyFileBorrower(reader) if scn.get('late_flavour') else AnyFileBorrower(reader, genTexts=scn['genTexts'])).setOptions(exts=['.json'])
             exts = ['.json']
+        if scn.get('late_flavour'):
+            b.setOptions(genTexts=scn['genTexts'])      # the flavour is an option like the others
         if not scn.get('lowcase'):
             b.setOptions(lowcaseMatching=False)
         if scn.get('cap'):
